@@ -58,7 +58,8 @@ TRUSTED = [
     "encode_double_quoted_attribute}, slice::sort_by on < 21 elements (insertion sort), str::trim on ASCII blanks",
     "compared only, NOT modelled (PARTIAL): rstml parsing of the macro input, token plumbing / quote!, component and "
     "slot expansion (two fixed components are rendered and checked by the oracle only), spreads, events, "
-    "directives, properties, inner_html, the global class form, nightly Static<..> strings",
+    "directives, properties, inner_html, the global class form (both rendered from generated templates and checked by the "
+    "oracle), nightly Static<..> strings",
     "Html/MacroParse.v is a parser for the EMITTED subset (double-quoted attributes, <!..> comments, four raw-text "
     "elements, the escapers' character references); the oracle's Python parser is written separately",
 ]
@@ -289,6 +290,17 @@ def gen_template(rng):
     return [gen_elem(rng, depth, dyn_p)]
 
 
+def gen_template_static(rng):
+    tag = pick(rng, ["div", "section", "main", "ul"])
+    ch = gen_children(rng, 2, 0.0) or [gen_elem(rng, 1, 0.0)]
+    t = [["e", tag, gen_attrs(rng, tag, "html", 0.0), ch]]
+
+    def strip(l):
+        # class toggles / tuples are fine; keep everything, the grammar at dyn_p = 0 has no dynamic class=
+        return l
+    return strip(t)
+
+
 def gen_component_template(rng):
     inner = gen_children(rng, 2, pick(rng, [0.0, 0.2])) + [["e", "b", [], [["t", "w"]]]]
     if rng.random() < 0.6:
@@ -326,6 +338,10 @@ FIXED = [
 FIXED_ORACLE_ONLY = [
     ("inner-html", [["e", "div", [], [["e", "p", [["p", "inner_html", ["lit", "<b>x</b>"]]], []]]]]),
 ]
+FIXED_GLOBAL_CLASS = [
+    ("global-class", [["e", "div", [], [["e", "p", [["p", "id", ["lit", "a"]]], [["t", "x"]]],
+                                        ["e", "span", [["p", "class", ["lit", "k"]]], [["t", "y"]]], ["e", "br", [], []]]]]),
+]
 
 
 def has_component(t):
@@ -340,14 +356,21 @@ def has_component(t):
 
 
 def generate(rng, tier):
-    n = 800 if tier == "quick" else 4000
+    n = 800 if tier == "quick" else 10000
     for kind, t in FIXED:
         yield dict(tpl=t, kind=kind, compare=True)
     for kind, t in FIXED_ORACLE_ONLY:
         yield dict(tpl=t, kind=kind, compare=False, variants=[0, 1])
+    for kind, t in FIXED_GLOBAL_CLASS:
+        yield dict(tpl=t, kind=kind, compare=False, gclass="sc")
     for i in range(n):
         if i % 25 == 24:
             yield dict(tpl=gen_component_template(rng), kind="component", compare=False, variants=[0, 1])
+        elif i % 25 == 12:
+            # the scope-class form (compared only): static templates, so that the inert path is taken;
+            # a dynamic class= next to a global class is rejected by the macro
+            t = [n for n in gen_template_static(rng)]
+            yield dict(tpl=t, kind="global-class", compare=False, gclass=pick(rng, ["sc", "s-1"]))
         else:
             t = gen_template(rng)
             yield dict(tpl=t, kind="template", compare=True)
@@ -482,13 +505,14 @@ def rust_template(tpl):
     return " ".join(rust_node(n) for n in tpl)
 
 
-def rust_fn(idx, tpl, variants=(0, 1, 2)):
+def rust_fn(idx, tpl, variants=(0, 1, 2), gclass=None):
     lines = ["pub fn t%d(out: &mut Out) {" % idx]
-    src = rust_template(tpl)
+    pre = "" if gclass is None else "class = %s, " % rust_str(gclass)
+    src = pre + rust_template(tpl)
     if 0 in variants:
         lines.append("    out.push((%d, 0, view! { %s }.to_html()));" % (idx, src))
     if 1 in variants:
-        lines.append("    out.push((%d, 1, view! { %s }.to_html()));" % (idx, rust_template(twin(tpl))))
+        lines.append("    out.push((%d, 1, view! { %s }.to_html()));" % (idx, pre + rust_template(twin(tpl))))
     if 2 in variants:
         lines.append("    out.push((%d, 2, template! { %s }.to_html()));" % (idx, src))
     lines.append("}")
@@ -510,7 +534,7 @@ def write_shards(items, gen_dir):
         ids = sorted(shards[k])
         body = ["// generated by gen/c18.py — do not edit"]
         for i in ids:
-            body.append(rust_fn(i, items[i]["tpl"], items[i].get("variants", (0, 1, 2))))
+            body.append(rust_fn(i, items[i]["tpl"], items[i].get("variants", (0, 1, 2)), items[i].get("gclass")))
         body.append("pub const TEMPLATES: &[(u32, fn(&mut Out))] = &[%s];" % ", ".join("(%d, t%d)" % (i, i) for i in ids))
         text = "\n".join(body) + "\n"
         p = os.path.join(gen_dir, "shard_%d.rs" % k)
@@ -743,9 +767,24 @@ def decode(b):
     return bytes(b).decode("utf-8", "replace")
 
 
+def add_scope(forest, cls):
+    """view! { class = "cls", … }: every element carries the scope class"""
+    out = []
+    for n in forest:
+        if n[0] == "text":
+            out.append(n)
+        else:
+            a = dict(n[2])
+            a["class"] = frozenset(a.get("class", frozenset()) | {cls})
+            out.append(("elem", n[1], a, add_scope(n[3], cls)))
+    return out
+
+
 def oracle(item, impl, tolerate_title=False):
     """impl = {variant: bytes list | '!…'}; the property demanded on the implementation alone"""
     want = expect(item["tpl"])
+    if item.get("gclass") is not None:
+        want = add_scope(want, item["gclass"])
     trees = {}
     for v in item.get("variants", (0, 1, 2)):
         o = impl.get(v)
@@ -790,7 +829,8 @@ def classify(item, impl, model):
 
 
 def describe(item):
-    return "view! { %s }" % rust_template(item["tpl"])
+    pre = "" if item.get("gclass") is None else "class = %s, " % rust_str(item["gclass"])
+    return "view! { %s%s }" % (pre, rust_template(item["tpl"]))
 
 
 def tree_of_sexp(f):
@@ -1067,7 +1107,8 @@ def main(tier, seed, replay):
         p = C.write_replay(PID, dict(kind="property-violation", property=PID, item=it,
                                      original=describe(r["item"]), readable=describe(it),
                                      impl={str(v): (decode(o) if isinstance(o, list) else o) for v, o in rs[0]["impl"].items()},
-                                     model=rs[0]["mismatch"] or "model agrees with the implementation byte for byte",
+                                     model=(rs[0]["mismatch"] or ("model agrees with the implementation byte for byte"
+                                                                  if it.get("compare", True) else "template outside the Coq model (compared by the oracle only)")),
                                      oracle=rs[0]["oracle"] or r["oracle"],
                                      other_failures=len(new_fail) - 1))
         violations.append((p, ""))
